@@ -31,7 +31,13 @@ import (
 const Module = "github.com/monstermichl/typeshell"
 
 // EngineDir is the directory of the engine module (go build runs there).
-func EngineDir() string { return filepath.Join(findings.Root(), "engine") }
+func EngineDir() string {
+	d := filepath.Join(findings.Root(), "engine")
+	if r, err := filepath.EvalSymlinks(d); err == nil {
+		return r // overlay keys must be the paths the go command sees
+	}
+	return d
+}
 
 var replaceLine = regexp.MustCompile(`(?m)^\s*replace\s+` + regexp.QuoteMeta(Module) + `\s*=>\s*(\S+)`)
 
@@ -48,6 +54,9 @@ func BuildRoot() (string, error) {
 	p := string(m[1])
 	if !filepath.IsAbs(p) {
 		p = filepath.Join(EngineDir(), p)
+	}
+	if r, err := filepath.EvalSymlinks(p); err == nil {
+		p = r
 	}
 	return filepath.Clean(p), nil
 }
